@@ -227,7 +227,28 @@ fn g_case(src: &mut Src, obs: &mut Obs) -> CaseResult {
                         Ok(Err(st)) => format!("STATUS-{:02x}", st),
                         Err(e) => e,
                     };
-                    format!("{} via-dispatch {}", hex(&rs::serialize_full(&r)), via)
+                    // the same response into buffers that are just too small, just large enough, and
+                    // of the usual small transport sizes: what fits (or not) must not depend on features
+                    let full = rs::serialize_full(&r);
+                    let mut small = String::new();
+                    if full.len() > 1 {
+                        let mut caps: Vec<usize> = vec![64, 128, 256, 1024];
+                        for c in crate::caps::CAPS.iter().rev() {
+                            if *c < full.len() {
+                                caps.push(*c);
+                                break;
+                            }
+                        }
+                        if let Some(c) = crate::caps::CAPS.iter().find(|c| **c >= full.len()) {
+                            caps.push(*c);
+                        }
+                        for c in caps {
+                            if let Some(b) = crate::caps::ser_n(&r, c, &[]) {
+                                small.push_str(&format!(" cap{}={}", c, crate::util::digest(&[&b])));
+                            }
+                        }
+                    }
+                    format!("{} via-dispatch {}{}", hex(&full), via, small)
                 }
                 Err(e) => format!("BUILD-ERROR {}", e),
             };
